@@ -195,6 +195,17 @@ class Ctx:
         return res
 
     # ---------------------------------------------------------------- accounting
+    def tlapm(self, module, timeout=900):
+        """check the proofs of spec/<module>.tla with the TLA+ proof system; returns the number of obligations proved (Infra if not all)"""
+        d = self.spec_dir()
+        rc, so, se = sh(["tlapm", "--threads", str(NCPU), "--cleanfp", module + ".tla"], cwd=d, timeout=timeout)
+        out = so + se
+        m = re.search(r"All (\d+) obligations? proved", out)
+        if rc != 0 or not m:
+            raise Infra("tlapm did not prove every obligation of %s: %s" % (module, out[-800:]))
+        self.tlc_runs.append({"module": module, "cfg": "(tlapm proof)", "rc": rc, "generated": 0, "distinct": 0, "wall_s": 0})
+        return int(m.group(1))
+
     def case(self, key, nontrivial=True, sample=None):
         """Count one explored case; key identifies it for distinctness."""
         self.evaluations += 1
